@@ -892,6 +892,82 @@ func (g *Engine) opStress(s hx.M) {
 	g.Tr.Emit(out)
 }
 
+// opFirstRace: the statistic node of a resource is created by the first Entry that names it.  In every round a
+// NEVER-SEEN resource is entered by several goroutines released at the same instant (spin barrier, real
+// parallelism, clock frozen); with all of them in flight, and again after all have exited, the node's gauge and
+// window sums are read.  Only totals over the rounds are recorded; spec: every admitted entry is accounted on THE node
+// of the resource it entered (EntryChain_Trace!TFirstRace).
+func (g *Engine) opFirstRace(s hx.M) {
+	rounds, workers := int(hx.Int(s, "rounds")), int(hx.Int(s, "workers"))
+	if workers > runtime.NumCPU()-1 {
+		workers = maxInt(2, runtime.NumCPU()-1)
+	}
+	g.stress = true
+	runtime.GOMAXPROCS(maxInt(4, runtime.NumCPU()))
+	defer runtime.GOMAXPROCS(1)
+	base0 := g.neid
+	var entries, tokens, concIn, passSum, concAfter, complSum, missing, escaped, blocked int64
+	var keep [][]*base.SentinelEntry
+	for r := 0; r < rounds; r++ {
+		name := fmt.Sprintf("%s_f%d", g.name2("r1"), r)
+		ents := make([]*base.SentinelEntry, workers)
+		var start int32
+		var ready, done sync.WaitGroup
+		for w := 0; w < workers; w++ {
+			ready.Add(1)
+			done.Add(1)
+			go func(w int) {
+				defer done.Done()
+				defer func() {
+					if rec := recover(); rec != nil {
+						atomic.AddInt64(&escaped, 1)
+					}
+				}()
+				b := int64(w%3 + 1)
+				opts := g.entryOpts(base0+int64(r*workers+w)+1, hx.M{"so": "pass", "b": float64(b), "inb": w%2 == 0})
+				ready.Done()
+				for atomic.LoadInt32(&start) == 0 {
+				}
+				e, be := api.Entry(name, opts...)
+				if be != nil {
+					atomic.AddInt64(&blocked, 1)
+				}
+				if e != nil {
+					ents[w] = e
+					atomic.AddInt64(&entries, 1)
+					atomic.AddInt64(&tokens, b)
+				}
+			}(w)
+		}
+		ready.Wait()
+		atomic.StoreInt32(&start, 1)
+		done.Wait()
+		node := stat.GetResourceNode(name)
+		if node == nil {
+			missing++
+		} else {
+			concIn += int64(node.CurrentConcurrency())
+			passSum += node.GetSum(base.MetricEventPass)
+		}
+		for _, e := range ents {
+			if e != nil {
+				e.Exit()
+			}
+		}
+		if node = stat.GetResourceNode(name); node != nil {
+			concAfter += int64(node.CurrentConcurrency())
+			complSum += node.GetSum(base.MetricEventComplete)
+		}
+		keep = append(keep, ents)
+	}
+	g.stress = false
+	g.neid = base0 + int64(rounds*workers)
+	g.sPassed, g.sCompl, g.sBlocked = sync.Map{}, sync.Map{}, 0
+	runtime.KeepAlive(keep)
+	g.Tr.Emit(hx.M{"op": "firstrace", "rounds": rounds, "workers": workers, "entries": entries, "tokens": tokens, "blocked": blocked,
+		"escaped": escaped, "missing": missing, "conc_in": concIn, "pass": passSum, "conc_after": concAfter, "complete": complSum, "st": g.st()})
+}
+
 var nameMu sync.Mutex
 
 func (g *Engine) name2(tok string) string {
@@ -928,6 +1004,8 @@ func (g *Engine) Run(scn []hx.M) {
 			g.opTick(s)
 		case "stress":
 			g.opStress(s)
+		case "firstrace":
+			g.opFirstRace(s)
 		default:
 			hx.Fatal("unknown op %q", op)
 		}
